@@ -113,7 +113,7 @@ var Dict = []string{
 	"\"", "'", "`", "\"$", "${", "{$", "$", "$$", "->", "::", "<", "<?", "<?=", "<?php", "<?php ", "<?php\n", "?>", "?>\n", "?",
 	"/*", "*/", "/**", "//", "#", "#!", "<<<A\n", "<<<'A'\n", "<<<\"A\"\n", "\nA", "\nA;", "\nA;\n", "\n  A;", "A", "\r", "\r\n", "\n", "\\",
 	"}", "{", "]", "[", "(", ")", "b\"", "0x", "0b", "1e", "1_0", ".", "..", "...", "__halt_compiler", "__halt_compiler();", "yield from", "yield",
-	"\x00", "\x01", "\x7f", "\x80", "\xff", " ", "\t", ";", ",", "=", "=>", "&", "|", "+", "-", "*", "/", "%", "!", "~", "@", "^", ":", "??", "<=>", "**",
+	"\x00", "\x01", "\x7f", "\x80", "\xff", "\xef\xbb\xbf", " ", "\t", ";", ",", "=", "=>", "&", "|", "+", "-", "*", "/", "%", "!", "~", "@", "^", ":", "??", "<=>", "**",
 	"$a", "$b", "$a[0]", "$a->b", "$a[", "$a->", "{$a}", "{$a", "${a}", "${a[1]}", "${a", "foo", "Foo\\Bar", "\\Foo", "namespace\\Foo", "1", "12", "1.5", "'x'", "\"x\"", "\"$a\"", "\"\\\\\"",
 	"if", "else", "elseif", "endif", "while", "for", "foreach", "as", "function", "fn", "class", "new", "static", "echo", "return", "use", "namespace",
 	"list", "array", "isset", "empty", "try", "catch", "finally", "switch", "case", "default", "break", "declare", "const", "abstract", "trait", "interface",
@@ -274,8 +274,23 @@ func Deep(t *rapid.T) []byte {
 	return b
 }
 
-// Any draws an input from one of the byte-level sources.
+// fileHeads are byte sequences that mean something at the very start of a file to some tool (byte
+// order marks, a shebang line, magic numbers) and that a lexer might be tempted to treat specially.
+// To PHP everything before the first open tag is inline HTML, apart from one leading "#!" line.
+var fileHeads = []string{"\xef\xbb\xbf", "\xef\xbb\xbf", "\xef\xbb", "\xff\xfe", "\xfe\xff", "\xef\xbb\xbf#!/bin/x\n", "#!/bin/x\n\xef\xbb\xbf", "\x00", "\x1f\x8b", "\n", "\r\n", " ", "%PDF-", "<?xml version=\"1.0\"?>\n"}
+
+// Any draws an input from one of the byte-level sources; one input in sixteen gets a file head
+// (byte order mark etc.) in front.
 func Any(t *rapid.T) ([]byte, string) {
+	b, class := anyBody(t)
+	if rapid.IntRange(0, 15).Draw(t, "filehead") == 0 {
+		h := rapid.SampledFrom(fileHeads).Draw(t, "head")
+		return append([]byte(h), b...), class + "+file-head"
+	}
+	return b, class
+}
+
+func anyBody(t *rapid.T) ([]byte, string) {
 	switch rapid.IntRange(0, 39).Draw(t, "special") {
 	case 0:
 		return Deep(t), "deep-nesting"
